@@ -342,12 +342,28 @@ mod verif_hooks {
         }
     }
 
-    fn restore<T: Persistable>(reader: Option<Box<dyn Read>>) -> Result<T, &'static str> {
+    fn restore<T: Persistable>(reader: Option<Box<dyn Read>>) -> Result<T, String> {
         let Some(mut reader) = reader else {
-            return Err("missing");
+            return Err("missing".to_string());
         };
-        std::panic::catch_unwind(std::panic::AssertUnwindSafe(|| T::read(&mut reader)))
-            .map_err(|_| "panic")
+        std::panic::catch_unwind(std::panic::AssertUnwindSafe(|| T::read(&mut reader))).map_err(
+            |e| {
+                let msg = e
+                    .downcast_ref::<String>()
+                    .cloned()
+                    .or_else(|| e.downcast_ref::<&str>().map(|s| s.to_string()))
+                    .unwrap_or_default();
+                format!("panic: {msg}")
+            },
+        )
+    }
+
+    fn same_bytes<T: Persistable>(a: &T, b: &T) -> bool {
+        let mut x = Vec::new();
+        let mut y = Vec::new();
+        a.write(&mut x);
+        b.write(&mut y);
+        x == y
     }
 
     /// Read back what was just persisted and compare by value.
@@ -360,8 +376,10 @@ mod verif_hooks {
             return;
         }
         let outcome = match restore::<T>(reader) {
-            Ok(restored) if restored == *value => "equal",
-            Ok(_) => "differ",
+            Ok(restored) if restored == *value => "equal".to_string(),
+            // not equal as values: representation-only differences serialise identically
+            Ok(restored) if same_bytes(&restored, value) => "equal-bytes".to_string(),
+            Ok(_) => "differ".to_string(),
             Err(e) => e,
         };
         emit(
@@ -369,7 +387,7 @@ mod verif_hooks {
             &format!(
                 "{},\"how\":\"value\",\"outcome\":{}",
                 item(id),
-                jstr(outcome)
+                jstr(&outcome)
             ),
         );
     }
@@ -386,13 +404,8 @@ mod verif_hooks {
             return;
         }
         let outcome = match restore::<T>(reader) {
-            Ok(restored) => {
-                let mut a = Vec::new();
-                let mut b = Vec::new();
-                value.write(&mut a);
-                restored.write(&mut b);
-                if a == b { "equal" } else { "differ" }
-            }
+            Ok(restored) if same_bytes(&restored, value) => "equal".to_string(),
+            Ok(_) => "differ".to_string(),
             Err(e) => e,
         };
         emit(
@@ -400,7 +413,7 @@ mod verif_hooks {
             &format!(
                 "{},\"how\":\"bytes\",\"outcome\":{}",
                 item(id),
-                jstr(outcome)
+                jstr(&outcome)
             ),
         );
     }
